@@ -265,6 +265,11 @@ let json_run fn argstr =
       let b = bytes_of_hex h in
       let fuel = nat_of_int (2 * List.length b + 8) in
       (match json_Valid fuel b with None -> "OUTOFFUEL" | Some r -> tf r) ^ "\t" ^ tf (std_valid b)
+  | "j.validg", [h] ->
+      (* beyond encoding/json's depth limit the oracle is the RFC 8259 grammar itself *)
+      let b = bytes_of_hex h in
+      let fuel = nat_of_int (2 * List.length b + 8) in
+      (match json_Valid fuel b with None -> "OUTOFFUEL" | Some r -> tf r) ^ "\t" ^ tf (g_valid b)
   | "j.tok", [h] | "j.tokreuse", [_; h] ->
       let b = bytes_of_hex h in
       (match tokenize b with
